@@ -63,7 +63,7 @@ man = {
         }
     ],
     "checks": checks,
-    "notes": "All checks run /venv/bin/python against /repo/src (the working tree). Exit 0 held on everything judged, 1 VIOLATION, 2 INCONCLUSIVE (deciding monitor saw too little / harness error). Known findings: known_findings.json.",
+    "notes": "All checks run /venv/bin/python against /repo/src (the working tree). Exit 0 held on everything judged, 1 VIOLATION, 2 INCONCLUSIVE (deciding monitor saw too little / harness error). Known findings: known_findings.json. Evidence of the last thorough run of every check (seed 0, same tree) is kept next to the quick-tier evidence under evidence_thorough/evidence/.",
     "not_applicable": [
         {"property_id": pid, "reason": "check not built yet (work in progress; will be claimed once its monitor exists)"}
         for pid in ALL
